@@ -35,10 +35,10 @@ def run(ctx):
             raise ToolError(f"vacuity: switching {g} off no longer violates anything on {b}")
     # 3. the code: controlled runs, every commit compared with the in-order reference, traces validated
     names = ["chain2", "rmw2", "rmw3", "dd3", "grow_shrink3"]
-    r, out, args = se.controlled(ctx, names, 120 if quick else 4000)
+    r, out, args = se.controlled(ctx, names, ctx.n(120, 4000))
     se.report(ctx, r, args, "C02")
     se.validate(ctx, r, out, "trace")
-    r3, out3, args3 = se.controlled(ctx, ["rmw3", "dd3"], 60 if quick else 1500, workers=3, tag="runs_w3")
+    r3, out3, args3 = se.controlled(ctx, ["rmw3", "dd3"], ctx.n(60, 1500), workers=3, tag="runs_w3")
     se.report(ctx, r3, args3, "C02")
     se.validate(ctx, r3, out3, "trace_w3", workers=3)
     if not ctx.violations:
